@@ -7,6 +7,8 @@ package harness
 import (
 	"context"
 	"fmt"
+	"net/http"
+	"net/url"
 	"strings"
 
 	"github.com/high-moctane/mocrelay"
@@ -52,9 +54,33 @@ type Conn struct {
 	WriterDone chan struct{} // optional: closed by the writer when its script is out
 }
 
+// upgradeRequest is the HTTP request every harness session carries in its context, as a session
+// served by Relay does. All sessions get an equal one (same peer address, same proxy headers, same
+// request id): nothing about the request tells two sessions apart, only the session itself does.
+func upgradeRequest() *http.Request {
+	return &http.Request{
+		Method:     "GET",
+		URL:        &url.URL{Path: "/"},
+		Proto:      "HTTP/1.1",
+		ProtoMajor: 1, ProtoMinor: 1,
+		Host:       "relay.example",
+		RemoteAddr: "192.0.2.7:50000",
+		Header: http.Header{
+			"Connection":        {"Upgrade"},
+			"Upgrade":           {"websocket"},
+			"Origin":            {"https://client.example"},
+			"User-Agent":        {"verif"},
+			"X-Request-Id":      {"req-1"},
+			"X-Forwarded-For":   {"198.51.100.9"},
+			"X-Real-Ip":         {"198.51.100.9"},
+			"Sec-Websocket-Key": {"dGhlIHNhbXBsZSBub25jZQ=="},
+		},
+	}
+}
+
 func NewConn(h *vsched.H, name string, parent context.Context, handler mocrelay.Handler) *Conn {
 	c := &Conn{H: h, Name: name, Recv: make(chan mocrelay.ClientMsg), Send: make(chan mocrelay.ServerMsg), stop: make(chan struct{})}
-	c.Ctx, c.Cancel = context.WithCancel(parent)
+	c.Ctx, c.Cancel = context.WithCancel(mocrelay.VerifCtxWithRequest(parent, upgradeRequest()))
 	c.Session = h.Spawn(func() {
 		c.ServeErr = handler.ServeNostr(c.Ctx, c.Send, c.Recv)
 		c.ServeDone = true
